@@ -3,13 +3,18 @@
    is_generator_enabled / merge / type_table / gen_loop / run_defers_*; it uses only the input data and
    the small declarative helpers defined here). *)
 Require Export Gengo.Base.Bytes Gengo.Model.Dispatch.
+Require Gengo.Model.Tables.
+
+(* the comment text the tags of one package come from (go/ast's CommentGroup.Text() of the groups the harness wrote):
+   the package docs in file order, and per declaration id the group directly above it (absent = no comment) *)
+Definition src := (list bytes * list (N * bytes))%type.
 
 Inductive case :=
 | CEnabled (g : bytes) (t : tags) (obs : list bool)
     (* IsGeneratorEnabled(g, t) called repeatedly: the set of answers seen *)
-| CModule (all : bool) (globals : tags) (gens : list gen) (pkgs : list pkg)
+| CModule (all : bool) (globals : tags) (gens : list gen) (pkgs : list pkg) (srcs : list src)
           (runs : list (list event * option outcome)).
-    (* one synthetic module executed in several fresh processes; None = unexpected failure *)
+    (* one synthetic module executed in several fresh processes; None = unexpected failure; [srcs] aligned with [pkgs] *)
 
 (* ---- equality ---- *)
 Definition values_eqb := list_eqb bytes_eqb.
@@ -30,15 +35,44 @@ Definition outcome_eqb (a b : outcome) : bool :=
   end.
 
 (* ---- model vs observed ---- *)
+
+(* the composed model (Model/Tables.v): the tag maps are not taken from the harness but computed by C12's model of
+   ExtractCommentTags / commentLinesFrom from the comment text, then merged and tested by this property's model *)
+Fixpoint dtext_of (l : list (N * bytes)) (i : N) : bytes :=
+  match l with
+  | [] => []
+  | (j, t) :: r => if N.eqb i j then t else dtext_of r i
+  end.
+
+Fixpoint pkgs_from_source (pkgs : list pkg) (srcs : list src) : option (list pkg) :=
+  match pkgs, srcs with
+  | [], [] => Some []
+  | p :: pr, s :: sr =>
+      match pkgs_from_source pr sr with
+      | Some r => Some (Gengo.Model.Tables.pkg_from_source (fst s) (dtext_of (snd s)) p :: r)
+      | None => None
+      end
+  | _, _ => None
+  end.
+
+Definition run_differs (model : res (list event * outcome)) (runs : list (list event * option outcome)) : bool :=
+  match model with
+  | Ok (evs, o) =>
+      existsb (fun run => negb (list_eqb event_eqb evs (fst run) && option_eqb outcome_eqb (Some o) (snd run))) runs
+  | _ => true
+  end.
+
 Definition mismatch (c : case) : bool :=
   match c with
   | CEnabled g t obs => negb (list_eqb Bool.eqb obs [is_generator_enabled g t])
-  | CModule all globals gens pkgs runs =>
-      match execute fixed_all all pkgs gens globals with
-      | Ok (evs, o) =>
-          existsb (fun run => negb (list_eqb event_eqb evs (fst run) && option_eqb outcome_eqb (Some o) (snd run))) runs
-      | _ => true
-      end
+  | CModule all globals gens pkgs srcs runs =>
+      (* tags as data (the harness' reading of the tag lines it wrote) *)
+      run_differs (execute fixed_all all pkgs gens globals) runs
+      (* tags from the source comment text, through C12's model *)
+      || match pkgs_from_source pkgs srcs with
+         | Some spkgs => run_differs (execute fixed_all all spkgs gens globals) runs
+         | None => true
+         end
   end.
 
 (* ---- the property's sentence ---- *)
@@ -151,7 +185,7 @@ Definition run_ok (all : bool) (globals : tags) (gens : list gen) (pkgs : list p
 Definition holds (c : case) : bool :=
   match c with
   | CEnabled g t obs => list_eqb Bool.eqb obs [spec_enabled g (fun k => lookup k t) (keys t)]
-  | CModule all globals gens pkgs runs => forallb (run_ok all globals gens pkgs) runs
+  | CModule all globals gens pkgs _ runs => forallb (run_ok all globals gens pkgs) runs
   end.
 
 Definition mismatches (cs : list case) : list nat := bad_indices mismatch cs.
